@@ -194,7 +194,7 @@ func onlyCalledFrom(p *core.Prog, f *ssa.Function, allowed map[*ssa.Function]boo
 	return ok(f)
 }
 
-func fnName(f *ssa.Function) string { return strings.TrimPrefix(sx.FuncName(f), core.ModPath+"/") }
+func fnName(f *ssa.Function) string { return short(sx.FuncName(f)) }
 
 func short(s string) string { return strings.ReplaceAll(s, core.ModPath+"/", "") }
 
